@@ -37,6 +37,18 @@ fn once(case: &Value, run: &Run) -> Acc {
         }
         "law" => crate::checks::compare::replay_law(case, run),
         "timeout" => replay_timeout(case),
+        "stall" => {
+            // re-run the whole check of that tier under the same watchdog, in a subprocess
+            let mut acc = Acc::new();
+            let exe = std::env::current_exe().expect("exe");
+            let out = std::process::Command::new(exe).args(["check", case["property"].as_str().unwrap_or("C12"), case["tier"].as_str().unwrap_or("quick")]).output();
+            let stalled = out.as_ref().map(|o| String::from_utf8_lossy(&o.stdout).contains("the check stalled")).unwrap_or(false);
+            println!("re-running the check: stalled again = {}", stalled);
+            if stalled {
+                acc.viol("the check stalls again".to_string(), case.clone());
+            }
+            acc
+        }
         "compose" => {
             let mut acc = Acc::new();
             let q = case["query"].as_str().unwrap_or("$");
